@@ -13,13 +13,15 @@ def run(tier, seed):
                 "closure, nothing removed unless pruning, no intermediate node added")
     rep.assumptions = ["alphabet of DESIGN §4", "a failing write raises a non-KeyError exception"]
     P = ("C05",)
-    ex = ("commit", "abort", "badarg", "wfail")
+    ex = ("commit", "abort", "badarg", "wfail", "cancel")
     for prune in (False, True):
         run_hex(rep, f"H5xSL batch<=1 prune={prune}", universe="H5", values=("S", "L"), prune=prune, props=P + (("C06",) if prune else ()), batch_len=1, exits=ex,
                 state_cap=6000)
     for prune in (False, True):
+        run_hex(rep, f"H3xSL batch<=2 prune={prune}", universe="H3", values=("S", "L"), prune=prune, props=P + (("C06",) if prune else ()), batch_len=2,
+                exits=ex, state_cap=6000)
         run_hex(rep, f"H3xSL pairs of consecutive events on ONE live object prune={prune}", universe="H3", values=("S", "L"), prune=prune,
-                props=P + (("C06",) if prune else ()), batch_len=1, exits=("commit", "abort", "badarg"), pairs=True, state_cap=6000)
+                props=P + (("C06",) if prune else ()), batch_len=1, exits=("commit", "abort", "badarg", "cancel"), pairs=True, state_cap=6000)
     if tier == "thorough":
         for prune in (False, True):
             run_hex(rep, f"H4xSL pairs on one live object prune={prune}", universe="H4", values=("S", "L"), prune=prune,
